@@ -177,6 +177,15 @@ def run(ctx):
     w = [e for e in IW.events if e.kind == 'store' and e.data.get('target') == 'attr' and e.data.get('name') == 'num_subblocks']
     ctx.ob('WHOWRITES', 'num_subblocks is re-derived once per block from the window arithmetic', cdb, len(w) == 1 and not w[0].loops,
            {'stores': [e.text() for e in w]}, node=(w[0].node if w else cdb.node), construct='self.num_subblocks')
+    # ---- D7 components the partition invariance rests on (shared definitions with C09 / C15)
+    ctx.clause = 'D7'
+    from .c09 import REF_RQ, Q, DSM
+    agree_ref(ctx, ctx.func(Q + 'RealQuantizer.quantize'), REF_RQ, 'quantiser statistics are taken once (non-positive period) or every '
+              'p-th call, never re-estimated per sub-block otherwise', what=('return', 'heap'),
+              no_inline=(Q + 'quantize_real', DSM + 'estimate_stats'))
+    from .c15 import REF_GET, MA
+    agree_ref(ctx, ctx.func(MA + 'get_samples'), REF_GET, 'array source: successive requests deliver contiguous, correctly delayed samples',
+              what=('return', 'attrstores', 'calls', 'substores'), max_depth=0, expand=False)
     # ---- D6 per-recording resets (also C12-D3)
     ctx.clause = 'D6'
     fb = blk[0]
